@@ -50,6 +50,10 @@ CHECKS = [
         "Seeded search over metric arrival histories under the fake clock: the real Store/Window/Checker (bare) and the real pubsubmon Monitor over real gossipsub on mocknet receive arrivals with chosen validity and TTLs, window overflows, peerset changes, peer removals and partitions; every read is compared with a reference table at that simulated instant (latest per peer, valid, unexpired, member) and the alert history is judged per expiry episode (never while fresh, at most once, at least once when the expiry rule applies). Sampling, not proof.",
         "At the exact expiry instant either answer is accepted; with >= 6 samples no upper bound on alert delay is asserted (accrual detector); a renewal that arrives and expires between two checker rounds does not demand its own alert; metrics that travel over gossipsub get structural clauses only. The publish-cadence clause (informer/ping loops of Cluster) is decided in clustersim when built.",
         "DESIGN.md §6 C09", "monsim"),
+    chk("C13", "exploration",
+        "The real adder (importer pipeline, single and sharding DAG services, multi-destination BlockAdder over gorpc on a simulated network) adds generated file trees with generated import parameters to 1-4 destination peers while BlockPut fails at chosen blocks on chosen destinations (IPFS error, or the link to the destination is cut), the same block fails everywhere, or BlockAllocate / Cluster.Pin fail. On success the union of delivered blocks must be closed under links from the root, every file must read back byte-identical through the go-unixfs reader, the root must equal the root computed without sharding and (single files) by the go-unixfs importer called directly, and exactly the expected pins must have reached Cluster.Pin (single: root with the requested options and the allocations the blocks were sent to; sharded: meta + cluster-DAG + shards whose links cover every content block exactly once, each shard under its limit and pinned deep enough for its links DAG). On failure no root/meta pin may exist. Sampling, not proof.",
+        "Cluster.BlockAllocate/Pin and IPFSConnector.BlockPut are recording models; the file-tree and parameter dimension is input generation carried because the fault and multi-destination dimensions need realistic DAGs.",
+        "DESIGN.md §6 C13", "addersim"),
     chk("C16", "exploration",
         "The real ipfshttp connector talks to a scripted in-memory IPFS HTTP daemon (installed as http.DefaultTransport) under the fake clock; the plan scripts the behaviour of every HTTP request of the pin-ls / swarm-connect / pin-update / pin-add-with-progress / pin-rm conversation (success, IPFS error body, non-JSON error, transport error, no answer, garbage, progress at chosen gaps then final object / stall / connection drop / X-Stream-Error trailer) for every pin kind and prior daemon state, the first call of each plan being drawn systematically from that product. Oracle: nil implies the daemon's pin table holds (or lacks) the CID in the asked mode at return; failed essential requests surface as errors; nothing is requested when already pinned as asked; unpin of an absent CID succeeds; a stalled pin is abandoned within 2 x PinTimeout + 1 s of the last progress; pin/update only with a recursively pinned source, with unpin=false. Sampling with a systematic component, not proof.",
         "The daemon is a model (go-ipfs error strings and go-ipfs-cmds trailer semantics as read from the vendored sources); a pin/add takes effect with its final stream object unless cancelled; a never-answering pin/update is not generated (the statement lists no such behaviour; the connector has no timeout there).",
@@ -87,6 +91,7 @@ def main():
             {"name": "ipfshttpsim", "path": "/verif/harness/ipfshttpsim", "serves_properties": ["C16"], "kind_free_text": "real ipfshttp.Connector against a scripted in-memory HTTP daemon (http.DefaultTransport) under the fake clock"},
             {"name": "raftsim", "path": "/verif/harness/raftsim", "serves_properties": ["C01"], "kind_free_text": "real consensus/raft + go-libp2p-raft + hashicorp/raft + BoltDB on mocknet with tmpfs data folders, kill/restart, recording datastore"},
             {"name": "crdtsim", "path": "/verif/harness/crdtsim", "serves_properties": ["C02"], "kind_free_text": "real consensus/crdt + go-ds-crdt + ipfs-lite + gossipsub + DHT on mocknet, fault-injecting datastore"},
+            {"name": "addersim", "path": "/verif/harness/addersim", "serves_properties": ["C13"], "kind_free_text": "real adder + ipfsadd + single/sharding DAG services + BlockAdder over gorpc on mocknet against recording Cluster/IPFSConnector services with per-(block,destination) faults"},
             {"name": "monsim", "path": "/verif/harness/monsim", "serves_properties": ["C09"], "kind_free_text": "real metrics Store/Window/Checker and pubsubmon over gossipsub on mocknet under the fake clock"},
             {"name": "trackersim", "path": "/verif/harness/trackersim", "serves_properties": ["C05", "C06"], "kind_free_text": "real stateless tracker + optracker in a synctest bubble against model pinset and model IPFS daemon"},
         ],
